@@ -274,6 +274,9 @@ func runConc(args []string) int {
 		case <-done:
 		case <-time.After(20 * time.Second):
 			mu.Lock() // workers that are not stuck may still be recording
+			for name := range record {
+				res.Scenarios = append(res.Scenarios, name)
+			}
 			res.Mismatches = append(res.Mismatches, fmt.Sprintf("fresh.first-use: trial %d with %d workers did not return within 20 s (deadlock)", k, res.Workers))
 			out, _ := json.Marshal(res)
 			mu.Unlock()
